@@ -11,7 +11,7 @@ from ref7z import reader as RR
 from vlib import arch, patches
 from vlib.runner import Check, Outcome
 
-from py7zr.exceptions import UnsupportedCompressionMethodError
+from py7zr.exceptions import AbsolutePathError, UnsupportedCompressionMethodError
 
 from checks.c01_roundtrip import is_kf03, main_codec
 
@@ -129,8 +129,9 @@ class C07(Check):
                 try:
                     added = SS.run_session(z, s, src, idx)
                     z.close()
-                except UnsupportedCompressionMethodError:
-                    # in append mode the chain is only assembled at the first write
+                except (UnsupportedCompressionMethodError, AbsolutePathError):
+                    # the chain is only assembled at the first write; write() refuses a source name that is still drive-prefixed
+                    # after one drive prefix was stripped ('c:/c:') - a clean rejection, C16 judges names
                     out.label("rejected_config")
                     out.nontrivial = False
                     return out
